@@ -30,6 +30,42 @@ type kvState struct {
 	hash string
 	thr  float64
 	tol  float64
+	recs map[string]detection.Signature // decoded sig: records (lazy)
+}
+
+// records decodes the signature records of the state (once).
+func (st *kvState) records() map[string]detection.Signature {
+	if st.recs == nil {
+		st.recs = map[string]detection.Signature{}
+		for _, k := range st.keys {
+			if strings.HasPrefix(k, "sig:") {
+				var sg detection.Signature
+				if decodeSignature(st.vals[k], &sg) == nil {
+					st.recs[sg.ID] = sg
+				}
+			}
+		}
+	}
+	return st.recs
+}
+
+// justifiedBy reports whether every alert is justified by the RECORD it names
+// in this very state: the record exists, its own topology (or fuzzy) hash
+// equals the function's, and it yields exactly this alert. An index entry of
+// one version followed to the record of another version fails this test even
+// if both happen to sit in one committed state.
+func (st *kvState) justifiedBy(alerts []detection.ScanResult, topo *topology.FunctionTopology, name string, thr, tol float64, exactOnly bool) string {
+	want := specAlerts(st.records(), topo, name, thr, tol, exactOnly)
+	for _, a := range alerts {
+		w, ok := want[a.SignatureID]
+		if !ok {
+			return fmt.Sprintf("alert for %q (name %q) pairs an index entry with a record whose own hashes do not match the function", a.SignatureID, a.SignatureName)
+		}
+		if alertJSON(a) != alertJSON(w) {
+			return fmt.Sprintf("alert for %q differs from what its record yields", a.SignatureID)
+		}
+	}
+	return ""
 }
 
 func dumpKV(db *pebble.DB) ([]string, map[string][]byte) {
@@ -121,9 +157,12 @@ const (
 	scExact
 	scCands
 	scBatch
+	scBigBatch // one ScanBatch call over >512 functions
 )
 
-var scanNames = []string{"ScanTopology", "ScanTopologyExact", "ScanCandidates", "ScanBatch"}
+const bigBatchN = 530
+
+var scanNames = []string{"ScanTopology", "ScanTopologyExact", "ScanCandidates", "ScanBatch", "ScanBatch(530 functions)"}
 
 type readerOp struct {
 	kind scanKind
@@ -207,13 +246,19 @@ func runC11(t *vs.Tape, cfg map[string]string) (res vs.Result) {
 
 	nR := 1 + t.Weighted("n.readers", 3, 2, 1)
 	nW := 1 + t.Weighted("n.writers", 3, 2)
+	if cfg["writers_only"] == "1" {
+		// C06 configuration: only writers (2-3), the oracle is the quiescent end
+		// state: every lookup must equal a brute-force pass over the surviving records
+		nR = 0
+		nW = 2 + t.Intn(2, "n.writers3")
+	}
 	var rprog [][]readerOp
 	var wprog [][]writerOp
 	for i := 0; i < nR; i++ {
 		var ops []readerOp
 		n := 1 + t.Intn(4, "r.nops")
 		for j := 0; j < n; j++ {
-			ops = append(ops, readerOp{kind: scanKind(t.Weighted("r.kind", 4, 3, 2, 2)), topo: t.Weighted("r.topo", 3, 2, 3, 1)})
+			ops = append(ops, readerOp{kind: scanKind(t.Weighted("r.kind", 40, 30, 20, 20, 3)), topo: t.Weighted("r.topo", 3, 2, 3, 1)})
 		}
 		rprog = append(rprog, ops)
 	}
@@ -222,7 +267,11 @@ func runC11(t *vs.Tape, cfg map[string]string) (res vs.Result) {
 		n := 1 + t.Intn(5, "w.nops")
 		for j := 0; j < n; j++ {
 			var w writerOp
-			switch t.Weighted("w.kind", 6, 3, 3, 2, 1, 1, 1) {
+			wk := []int{6, 3, 3, 2, 1, 1, 1}
+			if cfg["writers_only"] == "1" {
+				wk = []int{6, 3, 4, 1, 0, 0, 5}
+			}
+			switch t.Weighted("w.kind", wk...) {
 			case 0:
 				tag++
 				w = writerOp{kind: opAdd, sigs: []detection.Signature{hotSig(t, hot[t.Intn(2, "w.id")], tag)}}
@@ -247,7 +296,7 @@ func runC11(t *vs.Tape, cfg map[string]string) (res vs.Result) {
 
 	sim := vs.NewSim(vs.ModeSched, t)
 	sim.MapOrderOn = true // ScanBatch ranges a Go map: its order must come from the tape, not from the runtime
-	sim.MaxSteps = 6000
+	sim.MaxSteps = 60000
 	timeline := []*kvState{snapshotState(s)}
 	sim.OnStep = func(step int, _ *vs.Task, _ string) {
 		st := snapshotState(s)
@@ -277,6 +326,12 @@ func runC11(t *vs.Tape, cfg map[string]string) (res vs.Result) {
 					in := map[string]*topology.FunctionTopology{}
 					for k, tp := range poolTopos {
 						in[poolTopoNames[k]] = tp
+					}
+					rec.batch = s.ScanBatch(in)
+				case scBigBatch:
+					in := map[string]*topology.FunctionTopology{}
+					for k := 0; k < bigBatchN; k++ {
+						in[fmt.Sprintf("g%03d", k)] = poolTopos[k%len(poolTopos)]
 					}
 					rec.batch = s.ScanBatch(in)
 				}
@@ -410,7 +465,7 @@ func runC11(t *vs.Tape, cfg map[string]string) (res vs.Result) {
 					continue
 				}
 				tried[k] = true
-				why := matchRecord(rec, st, p[0], p[1])
+				why := matchRecord(rec, st, p[0], p[1], params)
 				if why == "" {
 					matched = true
 					break
@@ -446,6 +501,9 @@ func runC11(t *vs.Tape, cfg map[string]string) (res vs.Result) {
 	}
 	if v := checkAll(s, fm, scopeFull, false, "after all tasks finished: "); v != nil {
 		v.Class = "C11/final-state/" + v.Class
+		if cfg["writers_only"] == "1" {
+			v.Class = "C06/concurrent-writers/" + strings.TrimPrefix(v.Class, "C11/final-state/")
+		}
 		v.Msg += fmt.Sprintf("  [writers: %v]", wtrace)
 		res.Violation = v
 		return
@@ -455,7 +513,7 @@ func runC11(t *vs.Tape, cfg map[string]string) (res vs.Result) {
 	if len(pseenAll(timeline)) > 1 {
 		c.Inc("runs_with_param_change")
 	}
-	res.Nontrivial = overlapping > 0
+	res.Nontrivial = overlapping > 0 || (cfg["writers_only"] == "1" && len(distinctStates) > 2)
 	return
 }
 
@@ -496,7 +554,32 @@ func describeRecord(rec *scanRecord) string {
 
 // matchRecord returns "" if the recorded result equals the specification on
 // (st, thr, tol), else a description of the first difference.
-func matchRecord(rec *scanRecord, st *kvState, thr, tol float64) string {
+//
+// For the batch scans the database state is one snapshot for the whole call,
+// but threshold and tolerance are scanner settings read once per function:
+// they are not part of the committed database state the property speaks of,
+// so each function of a batch may have been evaluated under any setting that
+// was current during the call (allParams).
+func matchRecord(rec *scanRecord, st *kvState, thr, tol float64, allParams [][2]float64) string {
+	batchEntry := func(n string, tp *topology.FunctionTopology, got []detection.ScanResult, justify bool) string {
+		first := ""
+		for _, p := range allParams {
+			want, _ := specScanKV(st, tp, n, p[0], p[1], false, false)
+			why := ""
+			if v := compareAlerts("x", "batch", got, want); v != nil {
+				why = v.Msg
+			} else if justify {
+				why = st.justifiedBy(got, tp, n, p[0], p[1], false)
+			}
+			if why == "" {
+				return ""
+			}
+			if first == "" {
+				first = why
+			}
+		}
+		return first
+	}
 	topo := poolTopos[rec.op.topo]
 	name := poolTopoNames[rec.op.topo]
 	switch rec.op.kind {
@@ -504,6 +587,9 @@ func matchRecord(rec *scanRecord, st *kvState, thr, tol float64) string {
 		want, _ := specScanKV(st, topo, name, thr, tol, false, false)
 		if v := compareAlerts("x", "scan", rec.alerts, want); v != nil {
 			return v.Msg
+		}
+		if why := st.justifiedBy(rec.alerts, topo, name, thr, tol, false); why != "" {
+			return why
 		}
 	case scExact:
 		want, _ := specScanKV(st, topo, name, thr, tol, true, false)
@@ -525,6 +611,9 @@ func matchRecord(rec *scanRecord, st *kvState, thr, tol float64) string {
 				return "not the best alert"
 			}
 		}
+		if why := st.justifiedBy([]detection.ScanResult{*rec.exact}, topo, name, thr, tol, true); why != "" {
+			return why
+		}
 	case scCands:
 		_, want := specScanKV(st, topo, name, thr, tol, false, true)
 		if len(rec.cands) != len(want) {
@@ -535,14 +624,22 @@ func matchRecord(rec *scanRecord, st *kvState, thr, tol float64) string {
 			if !ok || normSig(*cd) != normSig(w) {
 				return fmt.Sprintf("candidate %q not in specification or different version", cd.ID)
 			}
+			if cd.TopologyHash != detection.GenerateTopologyHash(topo) && (cd.FuzzyHash == "" || cd.FuzzyHash != topology.GenerateFuzzyHash(topo)) {
+				return fmt.Sprintf("candidate %q: an index entry was followed to a record whose own hashes do not match the function", cd.ID)
+			}
 		}
 	case scBatch:
 		for k, tp := range poolTopos {
 			n := poolTopoNames[k]
-			want, _ := specScanKV(st, tp, n, thr, tol, false, false)
-			got := rec.batch[n]
-			if v := compareAlerts("x", "batch", got, want); v != nil {
-				return "batch[" + n + "]: " + v.Msg
+			if why := batchEntry(n, tp, rec.batch[n], true); why != "" {
+				return "batch[" + n + "]: " + why
+			}
+		}
+	case scBigBatch:
+		for k := 0; k < bigBatchN; k++ {
+			n := fmt.Sprintf("g%03d", k)
+			if why := batchEntry(n, poolTopos[k%len(poolTopos)], rec.batch[n], k < 2*len(poolTopos)); why != "" {
+				return "batch[" + n + "]: " + why
 			}
 		}
 	}
